@@ -474,9 +474,76 @@ def _directive_locations(d: int, pl: int, twice: bool) -> bool:
     return result(ok, True)
 
 
+# ---- All Variable Usages Are Allowed (spec 5.8.5) as a product: variable type x default x position type x position default x nesting
+VAR_TYPES = ("Int", "Int!", "String", "[Int]", "[Int!]", "[Int]!", "[Int!]!", "Boolean", "Boolean!", "[[Int]]")
+VAR_DEFAULTS = ("none", "value", "null")
+VAR_POSITIONS = (        # (selection using $v, type of the position, the position declares a default)
+    ("echo(x: $v)", "Int", True), ("req(n: $v, l: [1])", "Int!", False), ("req(n: 1, m: $v, l: [1])", "Int!", True), ("req(n: 1, l: $v)", "[Int!]!", False),
+    ("search(ids: $v)", "[Int]", False), ("search(f: {a: $v})", "Int", False), ("search(f: {c: $v})", "Int", True), ("search(f: {b: $v})", "[Int]", False),
+    ("search(ids: [$v])", "Int", False), ("req(n: 1, l: [$v])", "Int!", False), ("n @skip(if: $v)", "Boolean!", False), ("search(f: {sub: {subs: [{a: $v}]}})", "Int", False),
+    ("me { scaled(by: $v) }", "Int!", False), ("me { score(scale: $v) }", "Int", True),
+)
+VAR_VIA = ("query (%D) { %S }", "query (%D) { ...F } fragment F on Query { %S }", "fragment G on Query { %S } query (%D) { ...F } fragment F on Query { ... on Query { ...G } }")
+
+
+def _split(t):
+    return (t[:-1], True) if t.endswith("!") else (t, False)
+
+
+def types_compatible(var, loc):
+    """AreTypesCompatible(variableType, locationType), spec 5.8.5"""
+    vb, vnn = _split(var)
+    lb, lnn = _split(loc)
+    if lnn:
+        return vnn and types_compatible(vb, lb)
+    if vnn:
+        return types_compatible(vb, loc)
+    if lb.startswith("["):
+        return vb.startswith("[") and types_compatible(vb[1:-1], lb[1:-1])
+    if vb.startswith("["):
+        return False
+    return vb == lb
+
+
+def usage_allowed(var, vdefault, loc, loc_has_default):
+    """IsVariableUsageAllowed, spec 5.8.5"""
+    lb, lnn = _split(loc)
+    if lnn and not var.endswith("!"):
+        if not (vdefault == "value" or loc_has_default):
+            return False
+        return types_compatible(var, lb)
+    return types_compatible(var, loc)
+
+
+def _variable_positions(vt: int, vd: int, pos: int, via: int) -> bool:
+    """
+    pre: 0 <= vt < len(VAR_TYPES) and 0 <= vd < 3 and 0 <= pos < len(VAR_POSITIONS) and 0 <= via < len(VAR_VIA)
+    pre: shard_of(vt)
+    post: _
+    """
+    VT, VD = pick(vt, VAR_TYPES), pick(vd, VAR_DEFAULTS)
+    sel, loc, loc_default = pick(pos, VAR_POSITIONS)
+    tpl = pick(via, VAR_VIA)
+    if VT.endswith("!") and VD != "none":
+        return result(True, False)           # defaults on required variables: kept out (older drafts forbid them)
+    with untraced():
+        base = VT.replace("[", "").replace("]", "").replace("!", "")
+        lit = {"Int": "1", "String": '"x"', "Boolean": "true"}[base]
+        for _ in range(VT.count("[")):
+            lit = "[%s]" % lit
+        decl = "$v: %s%s" % (VT, "" if VD == "none" else (" = " + (lit if VD == "value" else "null")))
+        text = tpl.replace("%D", decl).replace("%S", sel)
+        rules, verdict = violated_rules(parse(text))
+        exp = usage_allowed(VT, VD, loc, loc_default)
+        ok = ("VariablesInAllowedPositionChecker" in rules) == (not exp) and verdict == (not rules)
+        if exp:
+            ok = ok and verdict
+    return result(ok, True)
+
+
 CONDITIONS = [
     Cond(
-        name="metamorphic", fn=_metamorphic, quick=150, thorough=900, per_path=60, shards_quick=16, shards_thorough=30,
+        name="metamorphic", fn=_metamorphic, quick=250, thorough=900, per_path=60, shards_quick=16, shards_thorough=30,
         bound="%d documents (valid templates + adversarial invalid ones) x subsets of 8 validity-preserving transformations (reverse/rotate definitions, reverse selections, reverse arguments and object fields, "
               "consistent renaming of fragments / variables / aliases / operations; quick: subsets of size <= 2, thorough: all 256) x 4 re-spellings (indent 2/4, extra commas, comments + BOM + tabs)" % len(SOURCES),
         symbolic={"src": "choice: document", "mask": "choice: which transformations", "spelling": "choice: re-spelling"},
@@ -494,6 +561,11 @@ CONDITIONS = [
          bound="%d directives (one custom directive per executable location, a multi-location one, @skip, @include, @deprecated, an unknown one) x %d placements over the 6 executable locations of a query/mutation schema "
                "(root and nested, inside fragments, second operation) x alone / followed by a second directive: KnownDirectives reports iff the location is not declared" % (len(DIRECTIVE_USES), len(PLACEMENTS)),
          symbolic={"d": "choice: directive", "pl": "choice: placement", "twice": "choice"}, witness={"d": 2, "pl": 5, "twice": False}),
+    Cond(name="variable_positions", fn=_variable_positions, quick=100, thorough=200, per_path=60, shards_quick=len(VAR_TYPES), shards_thorough=len(VAR_TYPES),
+         bound="%d variable types x default none / value / null x %d positions (nullable, non-null, with and without a declared default, list, list item, input-object field at depth 1 and 3, directive argument, nested field) "
+               "x 3 ways of reaching the usage (operation, fragment, nested fragments defined before the operation): VariablesInAllowedPosition reports exactly when IsVariableUsageAllowed is false, and nothing else is reported" % (len(VAR_TYPES), len(VAR_POSITIONS)),
+         symbolic={"vt": "choice: variable type", "vd": "choice: variable default", "pos": "choice: position", "via": "choice: nesting"},
+         assumptions=["reference: IsVariableUsageAllowed / AreTypesCompatible transcribed from spec 5.8.5"], witness={"vt": 0, "vd": 1, "pos": 1, "via": 1}),
     Cond(name="cycles", fn=_cycles, quick=100, thorough=300, shards_quick=8, shards_thorough=8, per_path=60,
          bound="EVERY directed spread graph on 3 fragments (512 adjacency matrices incl. self loops) x all 6 definition orders: NoFragmentCycles reports iff some fragment reaches itself",
          symbolic={"adj": "choice: adjacency matrix", "order": "choice: definition order"}, witness={"adj": 2, "order": 0}),
